@@ -37,7 +37,20 @@ func (m *vwMsg) Encode(buf []byte) error {
 	return nil
 }
 func (m *vwMsg) Decode(buf []byte) (uint64, error)              { return encoder.DeserializeRaw(buf, m) }
-func (m *vwMsg) Handle(c *MessageContext, x interface{}) error { return nil }
+func (m *vwMsg) Handle(c *MessageContext, x interface{}) error {
+	if st, ok := x.(*vwState); ok {
+		st.got <- vwGot{addr: c.Addr, a: m.A}
+	}
+	return nil
+}
+
+// what a real pool delivered (the pool's message state of the connection part of TestVerifWire)
+type vwGot struct {
+	addr string
+	a    uint32
+}
+
+type vwState struct{ got chan vwGot }
 
 func vwInts(b []byte) []int {
 	out := make([]int, len(b))
@@ -243,6 +256,87 @@ func TestVerifWire(t *testing.T) {
 		}
 		emit(map[string]interface{}{"fn": "send", "len": n, "max": max, "res": res})
 	}
+	// connections one after the other on a REAL pool: what an earlier connection left unfinished (half a frame, a refused
+	// length, the first bytes of a prefix) must not reach the messages of the next one
+	sendByteMessage = orig
+	st := &vwState{got: make(chan vwGot, 64)}
+	cfg := NewConfig()
+	cfg.Address, cfg.Port = "127.0.0.1", 0
+	pool, err := NewConnectionPool(cfg, st)
+	if err != nil {
+		t.Fatal(err)
+	}
+	runDone := make(chan struct{})
+	go func() { _ = pool.Run(); close(runDone) }()
+	var la string
+	for i := 0; i < 400 && la == ""; i++ {
+		pool.listenerLock.Lock()
+		if pool.listener != nil {
+			la = pool.listener.Addr().String()
+		}
+		pool.listenerLock.Unlock()
+		time.Sleep(5 * time.Millisecond)
+	}
+	if la == "" {
+		t.Fatal("the pool does not listen")
+	}
+	body := func(a uint32) []byte {
+		return vwFrame(append(append([]byte{}, vwPrefix[:]...), encoder.Serialize(&vwMsg{A: a, B: []byte{byte(a), 2, 3}})...))
+	}
+	waitEmpty := func() {
+		for i := 0; i < 400; i++ {
+			if n, err := pool.Size(); err == nil && n == 0 {
+				return
+			}
+			time.Sleep(5 * time.Millisecond)
+		}
+	}
+	nconn := count / 20
+	if nconn < 12 {
+		nconn = 12
+	}
+	for i := 0; i < nconn; i++ {
+		left := []string{"half-frame", "bad-length", "frame-and-prefix-bytes", "nothing", "prefix-only"}[i%5]
+		if ca, err := net.DialTimeout("tcp", la, time.Second); err == nil {
+			fr := body(uint32(1000 + i))
+			switch left {
+			case "half-frame":
+				_, _ = ca.Write(fr[:len(fr)/2])
+			case "bad-length":
+				_, _ = ca.Write([]byte{0xff, 0xff, 0xff, 0x7f, 1, 2, 3})
+			case "frame-and-prefix-bytes":
+				_, _ = ca.Write(append(append([]byte{}, fr...), 9, 0))
+			case "prefix-only":
+				_, _ = ca.Write([]byte{40, 0, 0, 0})
+			}
+			time.Sleep(20 * time.Millisecond)
+			ca.Close()
+		}
+		waitEmpty()
+		for len(st.got) > 0 {
+			<-st.got // what the first connection may have delivered
+		}
+		sent := []int{2*i + 1, 2*i + 2}
+		delivered := []int{}
+		if cb, err := net.DialTimeout("tcp", la, time.Second); err == nil {
+			_, _ = cb.Write(append(body(uint32(sent[0])), body(uint32(sent[1]))...))
+			deadline := time.After(3 * time.Second)
+		recv:
+			for len(delivered) < 2 {
+				select {
+				case g := <-st.got:
+					delivered = append(delivered, int(g.a))
+				case <-deadline:
+					break recv
+				}
+			}
+			cb.Close()
+		}
+		waitEmpty()
+		emit(map[string]interface{}{"fn": "conns", "left": left, "sent": sent, "delivered": delivered})
+	}
+	pool.Shutdown()
+	<-runDone
 	w.Flush()
 	f.Close()
 }
